@@ -54,6 +54,7 @@ FIXED = [
     "fixed: property=C20 35f3957 a Bundle name whose node CSE merged into an identical earlier bundle lost its label and output anchor (alias map only covered scalar references)",
     "fixed: property=C18 ae4f4b2 poles were linked only to their nearest neighbours, leaving clusters of grid poles and wire relays as separate electric networks",
     "fixed: property=C18 52564f9 the pole grid was laid out before the layout from an entity-count estimate: about a third of the consumers of generated programs lay outside every supply area",
+    "fixed: property=C04 75cac69 `m.write((m.read() != 6) : (m.read() + 3))`-style loops on one signal type: the colouring left the sum on the red network the hold gate is locked to and only logged the conflict (decider read m + m+3)",
     "fixed: property=C01 832242e `(c : k) && x` / `(c : k) || (d : j)` with constants other than 0/1 took the boolean shortcut (x*y, (x+y)>0) and yielded k or 0 instead of 1",
     "fixed: property=C01 7701d37 a comparison with an integer literal on the left (`3 < a`) was emitted as `signal-0 < a`",
 ]
@@ -176,6 +177,17 @@ add("C20", K1, K1_WHAT, "K1",
                ["sig", "n2", ["p", ["b", "-", ["v", "n0"], ["v", "i1"]], "signal-hourglass"]]],
               "mixed_names", nval=2), kinds={"i0": "input", "i1": "input", "i3": "input", "n0": "sel", "n2": "arith"},
          optimize=True))
+
+
+add("C04", "C04-unbalanced-read-paths-in-the-loop",
+    "a self-referential write whose expression reads the cell through paths of different combinator depth, e.g. "
+    "`m.write((m.read() != 6) : (m.read() + 3))` (the decider compares this tick's value and copies last tick's sum): "
+    "the compiler inserts no delay on the shorter path, so at every change of the circulating value one tick combines "
+    "two different generations and the glitch stays in the loop; no L with value(t+L) = f(value(t)) exists",
+    "expression lowering / memory_builder: no path balancing inside feedback loops; attributed only to cells whose "
+    "written expression has a combinator with cell-dependent operands of unequal depth (skewed_cells in C04.py); "
+    "balanced programs are never attributed",
+    witness("C04-unbalanced-read-paths"))
 
 
 # ---- C18
